@@ -466,12 +466,16 @@ class Domains:
         self.fee = sorted(set(self.ints) | {1000, 272000, 272001})
 
     def for_key(self, key, env: Env) -> List[Any]:
+        # positions and sizes: the extremes first (the search is depth first and capped; the largest group and the
+        # last position are where off-by-one and index-width mistakes live)
         if key == "GroupSize":
             lo = (env.index + 1) if env.index is not None else 1
-            return [v for v in self.small if lo <= v <= 16]
+            vals = [v for v in self.small if lo <= v <= 16]
+            return vals[-1:] + vals[:-1]
         if key == "GroupIndex":
             hi = (env.size - 1) if env.size is not None else 15
-            return [v for v in self.small if 0 <= v <= hi]
+            vals = [v for v in self.small if 0 <= v <= hi]
+            return vals[:1] + vals[-1:] + vals[1:-1] if len(vals) > 2 else vals
         _, field = key
         if field == "TypeEnum":
             return [1, 4, 6, 2, 3, 5]
